@@ -43,6 +43,9 @@ type c20Scenario struct {
 	// that does NOT mean "key exists" and is sent once in place of the reply to the subject's RESTORE: the
 	// replay has to fail whatever the policy, with the pre-existing key untouched
 	Inject string `json:"inject,omitempty"`
+	// family "sequences of pre-existing keys on one worker" (c20s_test.go): how the value of each key of the
+	// snapshot travels (acc | ref | bulk | chunk), in key order
+	Seq []string `json:"seq,omitempty"`
 }
 
 // c20Intended lists the policies a spelling may legitimately stand for. config.go lower-cases the value and
@@ -200,6 +203,12 @@ func c20Exec(t *testing.T, scn c20Scenario, ch *mc.Chooser) mc.Result {
 		if err != nil {
 			res = mc.Result{Verdict: "machinery", Clause: "generator: " + err.Error()}
 			return
+		}
+		if len(scn.Seq) > 0 {
+			if err := c20SeqCheck(scn, built); err != nil {
+				res = mc.Result{Verdict: "machinery", Clause: "sequence family: " + err.Error()}
+				return
+			}
 		}
 		olds := map[string]*redisd.Value{} // snapshot key -> prior value
 		bystander := &redisd.Value{T: 'h', Hash: map[string][]byte{"untouched": []byte("yes")}, HOrder: []string{"untouched"}, ExpireAt: now + 77777}
@@ -395,6 +404,31 @@ func c20Judge(scn c20Scenario, built *rdbBuilt, out *rdbOutcome, olds map[string
 	}
 	switch policy {
 	case "ignore":
+		if out.Err != nil && scn.Cfg.Bisync && scn.Cfg.TargetVer != "" && strings.Contains(out.Err.Error(), "Bad data format") {
+			// bidirectional replay has no native-command fallback: a snapshot key the policy does NOT skip
+			// (absent on the target) whose encoding the older target refuses ends the replay with a reported
+			// error (see rdbOracle). Accepted when nothing is recorded as complete and every pre-existing
+			// key is still untouched.
+			refused := false
+			for _, q := range execLog {
+				if q.Name() == "restore" && strings.Contains(q.Reply, "Bad data format") {
+					refused = true
+				}
+			}
+			if refused {
+				if rdbCpWritten(execLog) {
+					return mc.Violation("the replay failed (target does not know the encoding) but the snapshot offset was recorded as resume position", prefix+":refusal-recorded-complete", detail(nil))
+				}
+				for _, e := range met {
+					if r := unchanged(e); r != nil {
+						return *r
+					}
+				}
+				r := mc.OK(mc.Hash(append(logStr, "refused")...), true, out.Events)
+				r.Detail = rdbRefusedOlderTarget
+				return r
+			}
+		}
 		if out.Err != nil {
 			return mc.Violation("Send failed on a key the ignore policy tells it to skip", prefix+":not-skipped", detail(nil))
 		}
@@ -664,6 +698,9 @@ func c20Enumerate(tier string, f func(c20Scenario)) {
 			emit(c20Subject{name, ref.RDBEnc{Kind: "table"}, 9}, "chunked", th)
 		}
 	}
+	// sequences of pre-existing keys on one worker (c20s_test.go); last, so that the numbering of the
+	// scenarios above stays what it was
+	c20EnumerateSeq(thorough, f)
 }
 
 func runC20(t *testing.T, rep *mc.Reporter) {
@@ -690,6 +727,9 @@ func runC20(t *testing.T, rep *mc.Reporter) {
 		}
 		mc.RunScenario(rep, scn, 0, budget, func(ch *mc.Chooser) mc.Result {
 			r := c20Exec(t, scn, ch)
+			if len(scn.Seq) > 0 && r.Verdict == "ok" {
+				rep.Count(fmt.Sprintf("key_sequences_of_%d", len(scn.Seq)), 1)
+			}
 			if r.Verdict == "ok" && r.Detail == rdbRefusedOlderTarget {
 				rep.Count("reported_refusal_older_target", 1)
 				r.Detail = nil
